@@ -160,6 +160,19 @@ def owner_of(env, reg, chain_inner_first):
     return None
 
 
+def structural_owner(reg, widget):
+    """the deepest recipe-level widget whose subtree (including internally built widgets) contains `widget`"""
+    cache = reg.get("_owners")
+    if cache is None:
+        cache = {}
+        entries = [v for k, v in reg.items() if k != "_owners"]
+        for _path, _node, rw in sorted(entries, key=lambda e: -len(e[0])):  # deepest first
+            for x, _internal in T.all_widgets(rw):
+                cache.setdefault(id(x), rw)
+        reg["_owners"] = cache
+    return cache.get(id(widget))
+
+
 def evaluate(env, w, reg, size, focus):
     """one (tree, size, focus) evaluation.  -> ('skipped', None) | ('ok', None) | ('bad', Finding)"""
     from urwid.canvas import CanvasCache
@@ -199,7 +212,8 @@ def evaluate(env, w, reg, size, focus):
         return "bad", f
     if ev is not None:
         kind, msg = ev.problems[0]
-        got = owner_of(env, reg, [(cw, cs, cf, (ev.defcls if i == 0 else None)) for i, (cw, cs, cf) in enumerate(ev.chain)])
+        chain = [(cw, cs, cf, (ev.defcls if i == 0 else None)) for i, (cw, cs, cf) in enumerate(ev.chain)]
+        got = owner_of(env, reg, chain)
         if exc is not None:
             msg += f" [then {type(exc).__name__}: {str(exc)[:200]}]"
     else:
@@ -224,6 +238,15 @@ def evaluate(env, w, reg, size, focus):
     else:
         owner, blamed = got[0], got[1]
     ow, osize, ofocus, oqual = owner
+    if blamed[0] is not ow or id(ow) not in reg:
+        # the failing widget was built internally by a bundled class (LineBox, Button, GridFlow ...).  Classes that delegate
+        # render / rows / pack to their display widget leave no frame of their own in the call chain, so the recipe-level
+        # owner is taken from the STRUCTURE of the tree, and it is given the size its outermost internal widget was handed
+        so = structural_owner(reg, blamed[0])
+        if so is not None and so is not ow:
+            sized = [(cs, cf) for cw, cs, cf, _q in chain if structural_owner(reg, cw) is so or cw is so]
+            if sized and env.m1.in_domain(so, sized[-1][0])[0]:
+                ow, (osize, ofocus), oqual = so, sized[-1], None
     path = reg[id(ow)][0] if id(ow) in reg else ()
     # the class named in the signature is the class whose method failed (Text for an Edit failing inside Text.render)
     defcls = lambda wd, q: (q.split(".")[0] if q and "." in q or q else type(wd).__name__)  # noqa: E731
